@@ -176,7 +176,10 @@ func vfC07Run(c vfSerCase, ctx *vfCtx) *vfViolation {
 	}
 	sweep := vfSortedU32Bool(src.live)
 	for si, id := range sweep {
-		if si == len(sweep)/2 && si > 0 && !approxHNSW {
+		// (not over an HNSW graph outside its exact regime: a Flush that deletes the entry point re-elects
+		// one, and the two copies may legitimately elect different vertices)
+		hybridOverHNSW := c.Kind == "hybrid" && c.Hyb != nil && c.Hyb.HasVec && c.Hyb.VecKind == "hnsw"
+		if si == len(sweep)/2 && si > 0 && !approxHNSW && !hybridOverHNSW {
 			// half-way: both flush (documents that came from the stream are now physically dropped from
 			// the reloaded index) and must still agree
 			ea, eb := src.flushNow(), dst.flushNow()
